@@ -177,6 +177,7 @@ def run(spec, tier, seed, replay=None):
     harness_runs = []
 
     phase_times = {}
+    hung = set()
 
     def harness_round(args, seed, tag, hname=None, hoverlay=None, hrace=None):
         nonlocal evaluated_in_coq
@@ -188,9 +189,17 @@ def run(spec, tier, seed, replay=None):
                              "log": blog[-3000:]})
             return None
         outdir = os.path.join(workdir, tag)
-        rc, out, s = vlib.run_harness(binp, args, outdir, seed, timeout=spec.harness_timeout, env=spec.harness_env)
+        hkey = hname or spec.harness
+        if hkey in hung:
+            # this harness already ran into its time limit on this tree (a delivery that never returns, a
+            # worker that does not stop): further rounds would only wait for the same limit again
+            return None
+        limit = spec.harness_timeout if tier == "thorough" else min(spec.harness_timeout, 420)
+        rc, out, s = vlib.run_harness(binp, args, outdir, seed, timeout=limit, env=spec.harness_env)
         if s is None:
-            problems.append({"kind": "harness-run", "what": "harness exited %s without a summary" % rc, "log": out[-3000:]})
+            hung.add(hkey)
+            problems.append({"kind": "harness-run", "what": "harness %s exited %s without a summary (time limit %d s: "
+                             "the implementation may hang)" % (hkey, rc, limit), "log": out[-3000:]})
             return None
         if rc != 0:
             problems.append({"kind": "harness-run", "what": "harness exited %s" % rc, "log": out[-3000:]})
